@@ -1,4 +1,5 @@
 import itertools
+import os
 import re
 from collections import Counter, defaultdict, namedtuple
 from functools import cached_property
@@ -27,6 +28,10 @@ def _gen_nt(prefix=""):
 
 
 _gen_nt.i = 0
+
+# Verification hooks (add-only instrumentation): a dict of callbacks when the
+# environment variable GENLM_GRAMMAR_VERIF=1 is set, otherwise None (no-op).
+_VERIF_HOOKS = {} if os.environ.get("GENLM_GRAMMAR_VERIF") == "1" else None
 
 Other = namedtuple("Other", "x")
 
@@ -1060,6 +1065,8 @@ class CFG:
         b = len(blocks)
         iteration = 0
         while b >= 0:
+            if _VERIF_HOOKS and "agenda" in _VERIF_HOOKS:
+                _VERIF_HOOKS["agenda"](self, old, change, b)
             iteration += 1
 
             # Move on to the next block
